@@ -90,8 +90,10 @@ func u32(s string) uint32 { v, _ := strconv.ParseUint(s, 10, 32); return uint32(
 
 type fakePeer struct {
 	p2p.Peer
-	id p2p.ID
-	w  *world // set for the peers of a syncer: they answer chunk requests when the world is live
+	id    p2p.ID
+	w     *world   // set for the peers of a syncer: they answer chunk requests when the world is live
+	stops int      // how often the switch stopped this peer
+	sent  []string // what the reactor sent to it (reactor stream)
 }
 
 func (p *fakePeer) ID() p2p.ID { return p.id }
@@ -99,6 +101,9 @@ func (p *fakePeer) ID() p2p.ID { return p.id }
 // SendEnvelope is what the syncer's fetcher goroutines (requestChunk) and AddPeer call. In a live
 // world a chunk request is answered at once with the standard bytes for the index.
 func (p *fakePeer) SendEnvelope(e p2p.Envelope) bool {
+	if p.w != nil && p.w.reactor != nil {
+		p.sent = append(p.sent, showWire(e))
+	}
 	req, ok := e.Message.(*ssproto.ChunkRequest)
 	if !ok || p.w == nil || !p.w.live {
 		return true
@@ -216,13 +221,13 @@ var offerRes = map[string]abci.ResponseOfferSnapshot_Result{
 	"accept": abci.ResponseOfferSnapshot_ACCEPT, "abort": abci.ResponseOfferSnapshot_ABORT,
 	"reject": abci.ResponseOfferSnapshot_REJECT, "reject_format": abci.ResponseOfferSnapshot_REJECT_FORMAT,
 	"reject_sender": abci.ResponseOfferSnapshot_REJECT_SENDER, "unknown": abci.ResponseOfferSnapshot_UNKNOWN,
-	"error": -1,
+	"error": -1, "deadline": -2,
 }
 var applyRes = map[string]abci.ResponseApplySnapshotChunk_Result{
 	"accept": abci.ResponseApplySnapshotChunk_ACCEPT, "abort": abci.ResponseApplySnapshotChunk_ABORT,
 	"retry": abci.ResponseApplySnapshotChunk_RETRY, "retry_snapshot": abci.ResponseApplySnapshotChunk_RETRY_SNAPSHOT,
 	"reject_snapshot": abci.ResponseApplySnapshotChunk_REJECT_SNAPSHOT, "unknown": abci.ResponseApplySnapshotChunk_UNKNOWN,
-	"error": -1,
+	"error": -1, "deadline": -2,
 }
 
 func semis(s string) []string {
@@ -261,6 +266,9 @@ type world struct {
 	live     bool // real fetcher goroutines; peers answer their requests
 	requests []uint32
 	concWG   sync.WaitGroup
+	reactor  *statesync.Reactor
+	serve    *serveApp
+	via      bool // arrivals go through the reactor's Receive (wire bytes) instead of AddChunk/AddSnapshot
 }
 
 func (w *world) peer(id string) *fakePeer {
@@ -320,6 +328,29 @@ func (w *world) deliver(m msgT) string {
 	// not journal its next call before this entry
 	w.mtx.Lock()
 	defer w.mtx.Unlock()
+	if w.via {
+		wm, ch := wireMsg{kind: "C", h: m.h, f: m.f, i: m.i, body: m.body}, byte(statesync.ChunkChannel)
+		if m.isSnap {
+			wm, ch = wireMsg{kind: "S", h: m.snap.h, f: m.snap.f, c: m.snap.c, hash: m.snap.hash, meta: m.snap.meta}, byte(statesync.SnapshotChannel)
+		}
+		// Receive reports nothing: a chunk was accepted iff the queue holds it now and did not before
+		before := !m.isSnap && w.sy.VerifQueueHas(m.i)
+		stopped, _ := w.receive(m.peer, ch, wm)
+		if stopped {
+			w.journal = append(w.journal, "stop:"+showName(m.peer))
+			return "stop"
+		}
+		res := "no"
+		if !m.isSnap && !before && w.sy.VerifQueueHas(m.i) {
+			res = "added"
+		}
+		if m.isSnap {
+			w.journal = append(w.journal, "r"+m.String())
+		} else {
+			w.journal = append(w.journal, "r"+m.String()+"="+res)
+		}
+		return res
+	}
 	var r string
 	if m.isSnap {
 		r = w.addSnap(m.peer, m.snap)
@@ -395,10 +426,17 @@ func (w *world) Commit(ctx context.Context, height uint64) (*types.Commit, error
 // proxy.AppConnSnapshot + AppConnQuery
 func (w *world) Error() error { return nil }
 func (w *world) ListSnapshotsSync(abci.RequestListSnapshots) (*abci.ResponseListSnapshots, error) {
-	return &abci.ResponseListSnapshots{}, nil
+	if w.serve == nil {
+		return &abci.ResponseListSnapshots{}, nil
+	}
+	// a fresh slice: the reactor sorts it in place
+	return &abci.ResponseListSnapshots{Snapshots: append([]*abci.Snapshot{}, w.serve.snaps...)}, nil
 }
-func (w *world) LoadSnapshotChunkSync(abci.RequestLoadSnapshotChunk) (*abci.ResponseLoadSnapshotChunk, error) {
-	return &abci.ResponseLoadSnapshotChunk{}, nil
+func (w *world) LoadSnapshotChunkSync(req abci.RequestLoadSnapshotChunk) (*abci.ResponseLoadSnapshotChunk, error) {
+	if w.serve == nil {
+		return &abci.ResponseLoadSnapshotChunk{}, nil
+	}
+	return &abci.ResponseLoadSnapshotChunk{Chunk: w.serve.chunks[fmt.Sprintf("%d:%d:%d", req.Height, req.Format, req.Chunk)]}, nil
 }
 func (w *world) EchoSync(s string) (*abci.ResponseEcho, error) {
 	return &abci.ResponseEcho{Message: s}, nil
@@ -422,6 +460,9 @@ func (w *world) OfferSnapshotSync(req abci.RequestOfferSnapshot) (*abci.Response
 	}
 	if v.res == "error" {
 		return nil, errors.New("abci connection failure")
+	}
+	if v.res == "deadline" {
+		return nil, context.DeadlineExceeded
 	}
 	return &abci.ResponseOfferSnapshot{Result: offerRes[v.res]}, nil
 }
@@ -460,6 +501,9 @@ func (w *world) ApplySnapshotChunkSync(req abci.RequestApplySnapshotChunk) (*abc
 	}
 	if v.res == "error" {
 		return nil, errors.New("abci connection failure")
+	}
+	if v.res == "deadline" {
+		return nil, context.DeadlineExceeded
 	}
 	if v.res == "retry_snapshot" {
 		w.retrying = true
@@ -522,6 +566,9 @@ func (w *world) InfoSync(abci.RequestInfo) (*abci.ResponseInfo, error) {
 	case "err":
 		w.logf("I:err")
 		return nil, errors.New("abci connection failure")
+	case "deadline":
+		w.logf("I:deadline")
+		return nil, context.DeadlineExceeded
 	case "echo":
 		st := strings.Split(w.env[w.cur.h].state, "/")
 		v.ver, v.hash, v.height = u64(st[1]), w.curHash, int64(w.cur.h)
@@ -847,6 +894,24 @@ func execCase(c core.Case) (out []string) {
 			out = append(out, lc.op(f, m))
 			continue
 		}
+		if strings.HasPrefix(f[0], "r.") {
+			out = append(out, w.rop(f, m, note))
+			continue
+		}
+		if f[0] == "s.via" {
+			switch m["on"] {
+			case "1":
+				w.via = true
+				w.reactorOf().VerifSetSyncer(w.sy)
+				out = append(out, "ok")
+			case "0":
+				w.via = false
+				out = append(out, "ok")
+			default:
+				out = append(out, "bad-op")
+			}
+			continue
+		}
 		switch f[0] {
 		case "q.new":
 			if q != nil {
@@ -1091,6 +1156,8 @@ func execCase(c core.Case) (out []string) {
 						l = append(l, infoV{kind: "echo"})
 					case len(p) == 1 && p[0] == "err":
 						l = append(l, infoV{kind: "err"})
+					case len(p) == 1 && p[0] == "deadline":
+						l = append(l, infoV{kind: "deadline"})
 					case len(p) == 3:
 						ht, _ := strconv.ParseInt(p[2], 10, 64)
 						l = append(l, infoV{kind: "info", ver: u64(p[0]), hash: unhx(p[1]), height: ht})
